@@ -223,6 +223,10 @@ def load_findings(prop):
 
 def default_canon(case, r):
     """link errors come out in the iteration order of a HashMap: compare error lists as sets"""
+    if r is not None and r.startswith("P:"):
+        # a build with debug assertions announces itself as "<version>+debug" in the intro line
+        first, sep, rest = r.partition("|")
+        r = first.replace("2b6465627567", "", 1) + sep + rest
     if r is None or ("E:[" not in r and "err=[" not in r and "L:" not in r):
         return r
     r = re.sub(r"\[([^\[\]]*;[^\[\]]*)\]", lambda m: "[" + ";".join(sorted(m.group(1).split(";"))) + "]", r)
